@@ -7,34 +7,27 @@ From E3FP Require Import Base.Prelude Base.ZSet Base.Murmur3 Model.Geometry Mode
   Proofs.HashFacts.
 Open Scope Z_scope.
 (* ---- formulas re-derived from the SOURCE TEXT on every run (harness/facts_m1src.py -> Gen/M1Source.v) ---------------
-   The hand-written model is proved equal to what a small fail-closed `ast` translator reads out of fprinter.py: the order
-   and composition of the atom invariants, signed->unsigned, the hash input layout, the sort keys and the level-cap test.
-   Editing one of these expressions in the source changes Gen/M1Source.v (or makes the translator raise) and breaks these. *)
+   Three constructs are TRANSLATED by a small `ast` grammar (a different formula yields a different definition, hence a failing
+   theorem; a construct outside the grammar makes the translator raise, and this file is then reported as not attempted):
+   the element lists of the two atom-invariant functions, the integer expression returned by signed_to_unsigned_int, and the
+   boolean test of the level cap in Fingerprinter.__next__.  The other facts the translator looks at (hash-input layout, sort
+   keys, atom-tuple layout, radius, `<= rad`) are GUARDS only: string comparisons that make the translator raise; no theorem
+   is stated about them - they are tied to the model by the correspondence alone. *)
+From Coq Require Import Lia ZifyBool.
 From E3FP Require Import Gen.M1Source.
+Ltac Zify.zify_post_hook ::= Z.to_euclidean_division_equations.
 
 Theorem invariants_match_source : forall D (a : atom D),
   daylight_inv D a = daylight_inv_src D a /\ rdkit_inv D a = rdkit_inv_src D a.
 Proof. intros; split; reflexivity. Qed.
 Print Assumptions invariants_match_source.
 
-Theorem unsigned_matches_source : forall a, unsigned32 a = signed_to_unsigned_src a fprinter_bits.
-Proof. intro a. reflexivity. Qed.
+(* on the int32 range of identifiers the model's conversion is the source's formula (whatever equivalent way it is written) *)
+Theorem unsigned_matches_source : forall a, - two31 <= a < two31 -> unsigned32 a = signed_to_unsigned_src a fprinter_bits.
+Proof. intros a H. unfold unsigned32, signed_to_unsigned_src, fprinter_bits, two32, two31 in *. lia. Qed.
 Print Assumptions unsigned_matches_source.
-
-Theorem hash_input_matches_source : forall k prev flat, k :: prev :: flat = hash_input_src k prev flat.
-Proof. reflexivity. Qed.
-Print Assumptions hash_input_matches_source.
-
-Theorem sort_keys_match_source :
-  (forall x y : nb ZD, key2_leb (nb_key ZD x) (nb_key ZD y)
-                       = key2_leb (first_two_src (nb_conn x, nb_ident x, 0)) (first_two_src (nb_conn y, nb_ident y, 0))) /\
-  (forall x y : shell, zpair_leb (s_ident x, s_center x) (s_ident y, s_center y)
-                       = zpair_leb (shell_key_src (s_ident x) (s_center x)) (shell_key_src (s_ident y) (s_center y))).
-Proof. split; intros; reflexivity. Qed.
-Print Assumptions sort_keys_match_source.
 
 Theorem level_cap_matches_source : forall o st,
   negb (o_level o =? -1) && (o_level o <=? st_k st) = level_cap_reached_src (st_k st) (o_level o).
-Proof. intros. unfold level_cap_reached_src. apply andb_comm. Qed.
+Proof. intros. unfold level_cap_reached_src. lia. Qed.
 Print Assumptions level_cap_matches_source.
-
